@@ -199,13 +199,19 @@ def find_tokseq(toks, pat, start=0):
                 if [t[0] for t in toks[ti:ti + len(seq)]] == seq:
                     return rec(ti + len(seq), pi + 1, binds)
                 return None
-            for ln in range(1, 60):
+            for ln in range(1, 600 if p.startswith("$_") else 60):
                 if ti + ln > n:
                     break
                 seq = [t[0] for t in toks[ti:ti + ln]]
                 if seq[-1] in OPEN:
                     continue
-                if any(s == ";" for s in seq):
+                dd = 0
+                semi0 = False
+                for s_ in seq:
+                    if s_ in OPEN: dd += 1
+                    elif s_ in CLOSE: dd -= 1
+                    elif s_ == ";" and dd == 0: semi0 = True
+                if semi0:
                     break
                 if not balanced_ok(seq):
                     # could become balanced later if only opens pending
@@ -598,6 +604,21 @@ def delete_log_macros(ft):
                 break
 
 
+def thread_world(ft, effects):
+    """N12: `x.eff(args)` ==> `x.eff(args, Tracked(w))` for every listed effect function (ghost-only argument)."""
+    ft.retok()
+    sites = []
+    toks = ft.toks
+    for idx, (t, a, b) in enumerate(toks):
+        if t in effects and idx + 1 < len(toks) and toks[idx + 1][0] == "(" and (idx == 0 or toks[idx - 1][0] != "fn"):
+            close = match_close(ft.mask, toks[idx + 1][1])
+            inner = ft.mask[toks[idx + 1][2]:close].strip()
+            sites.append((close, "Tracked(w)" if not inner else ", Tracked(w)", t))
+    for close, ins, name in sorted(sites, reverse=True):
+        ft.text = ft.text[:close] + ins + ft.text[close:]
+        ft.log.append({"rule": "N12.world", "fn": ft.fnpath, "from": name + "(..)", "to": name + "(.., Tracked(w))"})
+
+
 def normalize_if_let(ft):
     """N1 (let-chains) and N2 (`&x` reference sub-patterns) on every `if let`:
        if let P = E && C { B }          ==> if let P = E { if C { B } }      (only when no `else` follows)
@@ -818,10 +839,10 @@ def build_unit(unit_dir, out_dir):
     top = []
     cur_fn = None
     for d in ds:
-        if d.name in ("fn",):
+        if d.name in ("fn", "fn?"):
             cur_fn = (d, [])
             top.append(("fn", cur_fn))
-        elif d.name in ("requires", "ensures", "rewrite", "loop", "forloop", "closure", "hint", "sig", "decreases", "recommends", "fnattr", "rename", "tracevar", "drop"):
+        elif d.name in ("requires", "ensures", "rewrite", "loop", "forloop", "closure", "hint", "sig", "decreases", "recommends", "fnattr", "rename", "tracevar", "drop", "world"):
             if cur_fn is None:
                 raise VxError(f"unit.vx:{d.lineno}: @{d.name} outside @fn")
             cur_fn[1].append(d)
@@ -861,6 +882,10 @@ def build_unit(unit_dir, out_dir):
                 em.add(f"// ---------- prelude/{f} (assumed contracts, trusted) ----------")
                 em.add(txt, {"kind": "prelude", "file": f})
                 preludes.append(f)
+            continue
+        if kind == "effects":
+            info.setdefault("effects", [])
+            info["effects"] += d.args.split() + d.text.split()
             continue
         if kind == "typemap":
             a, b = d.args.split("=>")
@@ -987,7 +1012,13 @@ def emit_fn(em, info, unit, cur_source, blk, typemap):
     m = re.match(r"(.*?)(?:\s*->\s*([A-Za-z_][A-Za-z0-9_]*))?$", args)
     fnpath, retname = m.group(1).strip(), m.group(2)
     src = Source.get(cur_source)
-    it = src.find("fn", fnpath)
+    try:
+        it = src.find("fn", fnpath)
+    except VxError:
+        if d.name == "fn?":
+            info.setdefault("optional_missing", []).append(fnpath)
+            return
+        raise
     if it.body_open is None:
         raise VxError(f"{fnpath}: no body")
     raw = strip_attrs(src.text[it.start:it.end])
@@ -1024,6 +1055,12 @@ def emit_fn(em, info, unit, cur_source, blk, typemap):
             ft.text = ft.text[:a] + ft.text[e:]
     for a, b in typemap:
         ft.replace_tokpat("N6.typemap", a, b)
+
+    # ---- N12 world passing: calls to effect functions get the tracked world appended
+    effects = info.get("effects", [])
+    wants_world = any(s.name == "world" for s in subs)
+    if effects and wants_world:
+        thread_world(ft, effects)
 
     # ---- closures (by ordinal)
     for s in subs:
@@ -1126,6 +1163,14 @@ def emit_fn(em, info, unit, cur_source, blk, typemap):
                 header = hft.text
                 ft.log += hft.log
     header = re.sub(r"^(\s*)(pub(\([^)]*\))?\s+)?((const\s+)?(unsafe\s+)?fn)\b", r"\1pub \4", header, count=1, flags=re.M)
+    if any(s.name == "world" for s in subs):
+        hm = mask_rust(header)
+        po = hm.find("(", re.search(r"\bfn\b", hm).end())
+        pc = match_close(hm, po)
+        inner = hm[po + 1:pc].strip()
+        wt = next(s for s in subs if s.name == "world").args.strip() or "Tracked(w): Tracked<&mut World>"
+        header = header[:pc] + ((", " if inner and not inner.endswith(",") else " ") + wt) + header[pc:]
+        ft.log.append({"rule": "N12.world", "fn": fnpath, "from": "signature", "to": "+ " + wt})
     if retname:
         hm = mask_rust(header)
         po = hm.find("(", re.search(r"\bfn\b", hm).end())
